@@ -137,6 +137,12 @@ def configs(tier):
                 Config('EFloat', {'es': 2, 'nbits': 4, 'inf': False, 'nan_kind': 'NEG_ZERO', 'eoffset': 0,
                                   'nan_value': None, 'inf_value': 0}),
                 Config('Exp', {'nbits': 3, 'eoffset': 0}), Config('REAL', {})]
+        # encodable fixed-point formats with substitutes that differ from each other
+        out += [Config('SMFixed', {'scale': 0, 'nbits': 3, 'nan_value': 0, 'inf_value': 2}),
+                Config('SMFixed', {'scale': -1, 'nbits': 4, 'nan_value': None, 'inf_value': 3}),
+                Config('SMFixed', {'scale': 0, 'nbits': 3, 'nan_value': 1, 'inf_value': None}),
+                Config('Fixed', {'signed': True, 'scale': 0, 'nbits': 4, 'nan_value': 0, 'inf_value': 5}),
+                Config('Fixed', {'signed': False, 'scale': -1, 'nbits': 3, 'nan_value': 1, 'inf_value': 2})]
         # NaN and infinity options that differ from each other (each alone)
         for nan, inf in ((True, False), (False, True)):
             out += [Config('MPBFixed', {'nmin': -1, 'maxval': 5, 'nan': nan, 'inf': inf}),
